@@ -52,6 +52,7 @@ def plan(tier):
             sh = 1 if n <= 3 else NSHARD
             units += [(tier, sname, n, k, sh) for k in range(sh)]
     units.append((tier, 'roots', 0, 0, 1))
+    units += [(tier, 'matrix', 0, k, 16) for k in range(16)]
     return units
 
 
@@ -191,6 +192,29 @@ def run(unit):
             r.violation(kind, {'text': detail}, detail, size=1)
         r.count('validated', r.counters['evaluations'])
         return r
+    if sname == 'matrix':
+        from hplmc import sigmatrix
+
+        for i, (desc, t) in enumerate(sigmatrix.invalid_cases()):
+            if i % shards != k:
+                continue
+            problems = []
+            text = texts_for(t)
+            if text is None:
+                continue
+            if not T.definite_clashes(t) and not T.eq_clashes(t):
+                r.violation('HARNESS-ERROR matrix case not confirmed by the reference analysis', {'text': text}, text)
+                continue
+            r.count('evaluations')
+            r.count('states')
+            expect_type_error('expr', text, desc, r, problems)
+            expect_type_error('pred', '{ ' + text + ' }', desc, r, problems)
+            expect_type_error('prop', 'after s as A: no t { ' + text + ' }', desc, r, problems)
+            for kind, detail in problems:
+                r.violation(kind, {'matrix': True, 'text': text}, detail, size=len(text))
+        r.count('validated', r.counters['evaluations'])
+        r.sample({'matrix_case': text})
+        return r
     g = c04.grammar_for(sname)
     for i, t in enumerate(g.stream('B', n)):
         if i % shards != k:
@@ -217,6 +241,11 @@ def replay(w):
     from hplmc.checks.c08 import _detuple
 
     r = Result()
+    if w.get('matrix'):
+        problems = []
+        for k_ in ('expr',):
+            expect_type_error(k_, w['text'], 'matrix', r, problems)
+        return [{'sig': k, 'detail': d} for k, d in problems]
     if 'term' not in w:
         return [{'sig': v['sig'], 'detail': v['detail']} for v in run(('quick', 'roots', 0, 0, 1)).violations]
     return [{'sig': k, 'detail': d} for k, d in check_term(_detuple(w['term']), r)]
@@ -225,7 +254,7 @@ def replay(w):
 def describe(tier):
     b = bounds(tier)
     return {
-        'rule': f"base: every accepted Bool term with <= {b['nodes']} nodes of the C04 universe for schemas {list(b['schemas'])}; for every argument position (operands of all operators, function arguments, range bounds, set elements, quantifier domains and bodies, indices) every filler of a 15-term menu (literals of each primitive sort, operator / function / quantifier results of each sort, a set, a range) whose own type is disjoint from the parameter type is injected - one clash per text, confirmed by the reference definite-clash analysis - and parsed as expression, predicate and property; plus reuse of each reference at a disjoint type (both conjunct orders) through the predicate, condition and property parsers; plus non-boolean roots. evaluations = injected texts; every one must raise TypeError.",
+        'rule': f"base: every accepted Bool term with <= {b['nodes']} nodes of the C04 universe for schemas {list(b['schemas'])}; for every argument position (operands of all operators, function arguments, range bounds, set elements, quantifier domains and bodies, indices) every filler of a 15-term menu (literals of each primitive sort, operator / function / quantifier results of each sort, a set, a range) whose own type is disjoint from the parameter type is injected - one clash per text, confirmed by the reference definite-clash analysis - and parsed as expression, predicate and property; plus reuse of each reference at a disjoint type (both conjunct orders) through the predicate, condition and property parsers; plus non-boolean roots; plus the signature matrix: every unary / binary operator and every built-in function with every wrong-sorted non-reference operand / argument (3 shapes per sort), every misuse of its result at a disjoint type, and one-argument calls of the two-argument functions. evaluations = injected texts; every one must raise TypeError.",
         'bounds': {'nodes': b['nodes']},
         'exhaustive': True,
         'assumptions': ['= / != clashes are generated only between two operands that each certainly have one base type (literal or operator/function result); transitive clashes through references and heterogeneous sets are not claimed and not generated'],
